@@ -83,7 +83,6 @@ use std::cell::Cell;
 use std::cmp::{max, min};
 use std::collections::{BTreeSet, HashMap};
 use std::rc::Rc;
-use unicode_width::UnicodeWidthStr;
 
 use std::io;
 use std::io::Write;
@@ -922,7 +921,7 @@ impl RenderNode {
                     Ul(_) => decorator.unordered_item_prefix(),
                     _ => unreachable!(),
                 };
-                let prefix_width = UnicodeWidthStr::width(prefix.as_str());
+                let prefix_width = render::text_renderer::str_width(prefix.as_str());
                 let mut size = v
                     .iter()
                     .map(recurse)
